@@ -405,7 +405,8 @@ def fitSteps (scaled : Bool) : List Step :=
 
 /-- `PoissonGAM._exposure_to_weights(y, exposure, weights)` -/
 def exposureSteps : List Step :=
-  [.vecFinite .exposure, .lenEq .y .exposure, .vecFinite .weights, .lenEq .weights .exposure]
+  -- `y = check_array(np.ravel(y), ndim=1)` comes first: the raw targets are cast and must be finite before the division
+  [.yFinite false, .vecFinite .exposure, .lenEq .y .exposure, .vecFinite .weights, .lenEq .weights .exposure]
 
 /-- `y`, `X`, lengths, weights — the common prefix of score / deviance_residuals / _sample_coef -/
 def scoreSteps : List Step :=
